@@ -60,13 +60,6 @@ EXPLANATION = ("C15_inv/C15_fresh: for every table passing KeyDiscipline, any hi
                "conforming to the table; C15_discipline: the regenerated table passes; C15_modes*: "
                "the seven spellings install the four calendars of the property text.")
 
-# make `./check C15` regenerate Gen/Cache.lean even before translate.py lists the generator
-try:
-    import translate as _translate
-    _translate.GENERATORS.setdefault("Cache", gen_cache.gen_cache)
-except Exception:     # pragma: no cover
-    pass
-
 SPELLINGS = ["gregorian", "360day", "360_day", "365day", "365_day", "366day", "366_day"]
 CLI_CHOICES = ["gregorian", "360day", "365day", "366day"]
 ENV_CAL = "ISODATETIMECALENDAR"
